@@ -193,10 +193,10 @@ pub const N_ENVS: u64 = 6;
 pub fn env_name(k: u64) -> &'static str {
     match k % N_ENVS {
         0 => "usual 4.1 handshake, pipelined, whole reads and writes",
-        1 => "pre-4.1 handshake layout",
-        2 => "handshake with CLIENT_PROTOCOL_41 only; every transport write accepts 1 byte",
+        1 => "pre-4.1 handshake layout announcing max_packet_size 2048",
+        2 => "handshake with CLIENT_PROTOCOL_41 only, max_packet_size 3000; every transport write accepts 1 byte",
         3 => "libmysqlclient-style handshake (db, plugin, attributes); transport writes accept 7 bytes",
-        4 => "lock-step client (sends a command only after the reply to the previous one)",
+        4 => "lock-step client (sends a command only after the reply to the previous one) whose handshake mentions every capability the server did not offer",
         _ => "reads of at most 3 bytes; transport writes accept 1000 bytes",
     }
 }
@@ -207,6 +207,7 @@ pub fn env_conv(k: u64, conv: &mut Conv) {
         1 => conv.handshake = handshake_variant(1).0,
         2 => conv.handshake = handshake_variant(2).0,
         3 => conv.handshake = handshake_variant(3).0,
+        4 => conv.handshake = handshake_variant(4).0,
         _ => {}
     }
 }
